@@ -247,8 +247,9 @@ struct Slot {
 fn pause(rng: &mut Rng, profile: u64) {
     let r = rng.below(100);
     let us = match profile {
-        0 => match r { 0..=69 => 0, 70..=89 => 1, _ => 2 + rng.below(150) },
-        1 => match r { 0..=29 => 0, 30..=49 => 1, 50..=89 => 2 + rng.below(300), 90..=97 => 300 + rng.below(1500), _ => 2000 + rng.below(2000) },
+        0 => 0,
+        1 => match r { 0..=69 => 0, 70..=89 => 1, _ => 2 + rng.below(150) },
+        2 => match r { 0..=29 => 0, 30..=49 => 1, 50..=89 => 2 + rng.below(300), 90..=97 => 300 + rng.below(1500), _ => 2000 + rng.below(2000) },
         _ => 300 + rng.below(1700),
     };
     match us {
@@ -268,7 +269,7 @@ pub fn run_line(line: &str) -> String {
 
 fn run_case(userun: bool, seed: u64, ops: &[Op]) -> String {
     let mut rng = Rng::new(seed);
-    let profile = seed % 3;
+    let profile = seed % 4; // 0 tight, 1 fast, 2 mixed, 3 slow
     let wd = watchdog();
     let sh = Arc::new(Shared::default());
     let side = start_system(userun);
